@@ -91,6 +91,32 @@ pub(crate) fn split_to_checked(buf: &mut bytes::Bytes, len: usize) -> Result<byt
     Ok(buf.split_to(len))
 }
 
+/// Largest buffer allocated up front for a length-prefixed value read from a
+/// stream. A longer value grows its buffer as the bytes actually arrive, so a
+/// corrupt or hostile length cannot make the reader allocate more than the
+/// peer has sent.
+const MAX_STREAM_PREALLOC: usize = 4096;
+
+/// Read exactly `len` bytes from `reader`.
+pub(crate) async fn read_exact_to_vec<R>(reader: &mut R, len: usize) -> std::io::Result<Vec<u8>>
+where
+    R: tokio::io::AsyncRead + Unpin,
+{
+    use tokio::io::AsyncReadExt;
+
+    if len <= MAX_STREAM_PREALLOC {
+        let mut v = vec![0; len];
+        reader.read_exact(&mut v).await?;
+        return Ok(v);
+    }
+    let mut v = Vec::with_capacity(MAX_STREAM_PREALLOC);
+    let n = reader.take(len as u64).read_to_end(&mut v).await?;
+    if n < len {
+        return Err(std::io::ErrorKind::UnexpectedEof.into());
+    }
+    Ok(v)
+}
+
 pub trait WriteExt {
     fn write_slice(&mut self, src: &[u8]);
     fn write_u8(&mut self, n: u8);
